@@ -410,4 +410,569 @@ theorem rangeLeft_spec {dm : Nat} (items : List α) (cs : List (Node α)) (hb : 
       · rw [List.drop_set_of_lt (by omega)]
       · rw [hidx, sum_take_succ cs a ch hc]; omega
 
+theorem inter_prefix (cs1 cs2 : List (Node α)) (is1 is2 : List α) (h : cs1.length = is1.length) :
+    inter (cs1 ++ cs2) (is1 ++ is2) = inter cs1 is1 ++ inter cs2 is2 := by
+  induction cs1 generalizing is1 with
+  | nil =>
+    have : is1 = [] := by simpa using h.symm
+    subst this; simp
+  | cons c cs ih =>
+    cases is1 with
+    | nil => simp at h
+    | cons s is' => simp [ih is' (by simpa using h)]
+
+/-- `pvRemoveRange` inside the common parent: the elements `i..j` go away, nothing else changes, and the reported
+    `resNode` is a leaf whose first slot has index `i` -/
+theorem removeRangeCom_spec {dm : Nat} (items : List α) (cs : List (Node α)) (hb : Bal (dm+1) (inner items cs))
+    (p1 : List Nat) (i1 : Nat) (p2 : List Nat) (i2 : Nat) (hv1 : ValidElem (inner items cs) p1 i1)
+    (hv2 : ValidElem (inner items cs) p2 i2)
+    (hle : idxOf (inner items cs) p1 i1 ≤ idxOf (inner items cs) p2 i2)
+    (hdiv : ∀ c1 q1 c2 q2, p1 = c1 :: q1 → p2 = c2 :: q2 → c1 ≠ c2) :
+    toList (removeRangeCom items cs p1 i1 p2 i2).1 =
+        (inter cs items).take (idxOf (inner items cs) p1 i1) ++ (inter cs items).drop (idxOf (inner items cs) p2 i2 + 1) ∧
+    Bal (dm+1) (removeRangeCom items cs p1 i1 p2 i2).1 ∧
+    (∃ cap its, nodeAt? (removeRangeCom items cs p1 i1 p2 i2).1 (removeRangeCom items cs p1 i1 p2 i2).2.2 =
+        some (leaf cap its)) ∧
+    offsetOf (removeRangeCom items cs p1 i1 p2 i2).1 (removeRangeCom items cs p1 i1 p2 i2).2.2 =
+        idxOf (inner items cs) p1 i1 ∧
+    (∀ maxCap, Caps maxCap (inner items cs) → Caps maxCap (removeRangeCom items cs p1 i1 p2 i2).1) := by
+  have hlen := hb.inner_len
+  have hall := hb.inner_child
+  obtain ⟨l1, l2, l3, l4, l5, l6, l7, l8, l9, l10⟩ := rangeLeft_spec items cs hb p1 i1 hv1
+  generalize hL : rangeLeft items cs p1 i1 = L at l1 l2 l3 l4 l5 l6 l7 l8 l9 l10
+  obtain ⟨items1, cs1, a', reb⟩ := L
+  simp only at l1 l2 l3 l4 l5 l6 l7 l8 l9 l10
+  -- the right side: new children `cs2`, first staying index `b'`, and what it leaves behind
+  have hright : ∃ cs2 b', rangeRight cs1 p2 i2 = (cs2, b') ∧ cs2.length = cs.length ∧ a' ≤ b' ∧ b' ≤ items.length ∧
+      (∀ x ∈ cs2, Bal dm x) ∧ (∀ maxCap, Caps maxCap (inner items cs) → ∀ x ∈ cs2, Caps maxCap x) ∧
+      cs2.take a' = cs1.take a' ∧
+      inter (cs2.drop b') (items.drop b') = (inter cs items).drop (idxOf (inner items cs) p2 i2 + 1) := by
+    obtain ⟨m2, hm2, hi2⟩ := hv2
+    cases p2 with
+    | nil =>
+      simp at hm2; subst hm2
+      simp only [Node.count] at hi2
+      obtain ⟨c, hc⟩ := getElem?_of_lt (l := cs) (i := i2) (by omega)
+      obtain ⟨x, hx⟩ := getElem?_of_lt hi2
+      have hj : idxOf (inner items cs) [] i2 = ((cs.take (i2+1)).map (fun c => size c)).sum + i2 := by simp
+      have hab : a' ≤ i2 + 1 := by
+        apply Decidable.byContradiction; intro hc'
+        have h1 := sum_take_mono cs (a := i2 + 1) (b := a') (by omega)
+        rcases l10 with h | ⟨a, ha1, ha2, _⟩
+        · omega
+        · have h2 := sum_take_mono cs (a := i2 + 1) (b := a) (by omega)
+          omega
+      refine ⟨cs1, i2 + 1, rfl, l2, hab, by omega, l3, l4, rfl, ?_⟩
+      have hcs : cs1.drop (i2 + 1) = cs.drop (i2 + 1) := by
+        apply List.ext_getElem?
+        intro n; rw [List.getElem?_drop, List.getElem?_drop]; exact l7 _ (by omega)
+      rw [hcs, hj, sum_take_succ cs i2 c hc, inter_split cs items i2 c hc hlen]
+      have hpl := preOf_length cs items i2 (by omega) hlen
+      have hd : items.drop i2 = x :: items.drop (i2 + 1) := by
+        rw [List.drop_eq_getElem_cons hi2]; congr 1
+        rw [List.getElem?_eq_getElem hi2] at hx; exact Option.some.inj hx
+      simp only [postOf, hd]
+      have : ((cs.take i2).map (fun c => size c)).sum + size c + i2 + 1 = (preOf cs items i2 ++ toList c).length + 1 := by
+        rw [List.length_append, hpl]; simp only [size]; omega
+      rw [this, List.drop_append, List.drop_of_length_le (Nat.le_succ _)]
+      simp
+    | cons b q =>
+      simp only [nodeAt?_inner_cons] at hm2
+      cases hc : cs[b]? with
+      | none => simp [hc] at hm2
+      | some ch =>
+        simp only [hc] at hm2
+        have hbl := lt_of_getElem? hc
+        have hbch := hall ch (List.mem_of_getElem? hc)
+        have hve : ValidElem ch q i2 := ⟨m2, hm2, hi2⟩
+        have hv := idxOf_lt_size hbch q i2 hve
+        have hj : idxOf (inner items cs) (b :: q) i2 = ((cs.take b).map (fun c => size c)).sum + b + idxOf ch q i2 :=
+          idxOf_inner_cons' hc q i2
+        have hs := sum_take_succ cs b ch hc
+        have hab : a' ≤ b := by
+          apply Decidable.byContradiction; intro hc'
+          rcases l10 with h | ⟨a, ha1, ha2, horigin⟩
+          · have h1 := sum_take_mono cs (a := b + 1) (b := a') (by omega)
+            omega
+          · by_cases hab' : a = b
+            · subst hab'
+              rcases horigin with ⟨q1, hq1⟩ | ⟨hp1, hi1⟩
+              · exact hdiv a q1 a q hq1 rfl rfl
+              · -- begin is item `a` of the common parent, prev(end) lies in child `a` before it
+                subst hp1; subst hi1
+                simp only [idxOf_inner_nil] at hle
+                omega
+            · have h2 := sum_take_mono cs (a := b + 1) (b := a) (by omega)
+              omega
+        have hcs1b : cs1[b]? = some ch := by rw [l7 b hab]; exact hc
+        obtain ⟨t1, t2, t3⟩ := truncLeft_spec hbch q i2 hve
+        refine ⟨cs1.set b (truncLeft ch q i2), b, by simp [rangeRight, hcs1b], by simp [l2], hab, by omega, ?_, ?_,
+          by rw [List.take_set_of_le hab], ?_⟩
+        · intro y hy
+          rcases List.mem_or_eq_of_mem_set hy with h | rfl
+          · exact l3 y h
+          · exact t2
+        · intro maxCap hcaps y hy
+          rcases List.mem_or_eq_of_mem_set hy with h | rfl
+          · exact l4 maxCap hcaps y h
+          · cases hcaps with
+            | inner _ _ _ h2 => exact t3 maxCap (h2 ch (List.mem_of_getElem? hc))
+        · have hdrop : (cs1.set b (truncLeft ch q i2)).drop b = truncLeft ch q i2 :: cs.drop (b + 1) := by
+            rw [List.drop_eq_getElem_cons (by simp [l2]; omega)]
+            simp only [List.getElem_set_self]
+            congr 1
+            rw [List.drop_set_of_lt (by omega)]
+            apply List.ext_getElem?
+            intro n; rw [List.getElem?_drop, List.getElem?_drop]; exact l7 _ (by omega)
+          rw [hdrop, inter_drop_child cs items b ch _ hc hlen, t1, hj, inter_split cs items b ch hc hlen]
+          have hpl := preOf_length cs items b (by omega) hlen
+          have : ((cs.take b).map (fun c => size c)).sum + b + idxOf ch q i2 + 1 =
+              (preOf cs items b).length + (idxOf ch q i2 + 1) := by omega
+          rw [this, drop_middle _ _ _ _ (by simp only [size] at hv; omega)]
+  obtain ⟨cs2, b', hR, r1, r2, r3, r4, r5, r6, r7⟩ := hright
+  have ha'len : a' ≤ items.length := by omega
+  have hpre := l6 ha'len
+  have hitems : items1.drop b' = items.drop b' := by
+    have : items1.drop b' = (items1.drop a').drop (b' - a') := by rw [List.drop_drop]; congr 1; omega
+    rw [this, l8, List.drop_drop]; congr 1; omega
+  unfold removeRangeCom
+  rw [hL, hR]
+  simp only
+  have htk1 : (cs2.take a').length = (items1.take a').length := by simp [r1, l1]; omega
+  have hnewlen : (cs2.take a' ++ cs2.drop b').length = (items1.take a' ++ items1.drop b').length + 1 := by
+    simp [r1, l1]; omega
+  have hget : (cs2.take a' ++ cs2.drop b')[a']? = cs2[b']? := by
+    rw [List.getElem?_append_right (by simp [r1]; omega)]
+    have : a' - (cs2.take a').length = 0 := by simp [r1]; omega
+    rw [this, List.getElem?_drop]; simp
+  obtain ⟨cb, hcb⟩ := getElem?_of_lt (l := cs2) (i := b') (by omega)
+  have hbcb := r4 cb (List.mem_of_getElem? hcb)
+  obtain ⟨⟨lcap, lits, hlp1⟩, hlp2⟩ := leftPath_spec hbcb
+  have hlp3 : offsetOf cb (leftPath cb) = 0 := by
+    have := idxOf_eq_offset cb _ (leftPath cb) 0 hlp1
+    rw [hlp2] at this; simp at this; omega
+  have hpreEq : inter (cs2.take a') (items1.take a') = (inter cs items).take (idxOf (inner items cs) p1 i1) := by
+    rw [r6]; exact hpre
+  refine ⟨?_, ?_, ⟨lcap, lits, ?_⟩, ?_, ?_⟩
+  · rw [toList_inner, inter_prefix _ _ _ _ htk1, hpreEq, hitems, r7]
+  · refine Bal.inner dm _ _ hnewlen ?_
+    intro y hy
+    rcases List.mem_append.mp hy with h | h
+    · exact r4 y (List.mem_of_mem_take h)
+    · exact r4 y (List.mem_of_mem_drop h)
+  · rw [hcb]
+    simp only
+    rw [nodeAt?_inner_cons' (by rw [hget]; exact hcb)]; exact hlp1
+  · rw [hcb]
+    simp only
+    rw [offsetOf_inner_cons' (by rw [hget]; exact hcb), hlp3]
+    have h1 : (cs2.take a' ++ cs2.drop b').take a' = cs2.take a' := by
+      rw [List.take_append_of_le_length (by simp [r1]; omega), List.take_take]; simp
+    rw [h1]
+    -- the number of elements in front of child `a'` is the length of the kept prefix
+    have hpl : (inter (cs2.take a') (items1.take a')).length = ((cs2.take a').map (fun c => size c)).sum + a' := by
+      have := preOf_length cs2 items1 a' (by omega) (by omega)
+      simpa [preOf] using this
+    rw [hpreEq] at hpl
+    have hil : idxOf (inner items cs) p1 i1 ≤ (inter cs items).length := by
+      have := idxOf_lt_size hb p1 i1 hv1
+      simp only [size, toList_inner] at this; omega
+    rw [List.length_take, Nat.min_eq_left hil] at hpl
+    omega
+  · intro maxCap hcaps
+    have hc2 := r5 maxCap hcaps
+    cases hcaps with
+    | inner _ _ h1 _ =>
+      refine Caps.inner _ _ (by simp [l1]; omega) ?_
+      intro y hy
+      rcases List.mem_append.mp hy with h | h
+      · exact hc2 y (List.mem_of_mem_take h)
+      · exact hc2 y (List.mem_of_mem_drop h)
+
+/-! ### `pvGetCommonParent` and the whole `pvRemoveRange` -/
+
+theorem removeRangeAt_spec {d : Nat} {n : Node α} (hb : Bal d n) (p1 : List Nat) (i1 : Nat) (p2 : List Nat) (i2 : Nat)
+    (hv1 : ValidElem n p1 i1) (hv2 : ValidElem n p2 i2) (hle : idxOf n p1 i1 ≤ idxOf n p2 i2)
+    (hns : ¬ (p1 = p2 ∧ ∃ cap its, nodeAt? n p1 = some (leaf cap its))) :
+    toList (removeRangeAt n p1 i1 p2 i2).1 = (toList n).take (idxOf n p1 i1) ++ (toList n).drop (idxOf n p2 i2 + 1) ∧
+    Bal d (removeRangeAt n p1 i1 p2 i2).1 ∧
+    (∃ cap its, nodeAt? (removeRangeAt n p1 i1 p2 i2).1 (removeRangeAt n p1 i1 p2 i2).2.2 = some (leaf cap its)) ∧
+    offsetOf (removeRangeAt n p1 i1 p2 i2).1 (removeRangeAt n p1 i1 p2 i2).2.2 = idxOf n p1 i1 ∧
+    (∀ maxCap, Caps maxCap n → Caps maxCap (removeRangeAt n p1 i1 p2 i2).1) := by
+  induction p1 generalizing n d p2 with
+  | nil =>
+    cases n with
+    | leaf cap is =>
+      exfalso; apply hns
+      obtain ⟨m2, hm2, _⟩ := hv2
+      cases p2 with
+      | nil => exact ⟨rfl, cap, is, by simp⟩
+      | cons c q => simp at hm2
+    | inner items cs =>
+      obtain ⟨d', rfl, hall⟩ := hb.inner_depth
+      have : removeRangeAt (inner items cs) [] i1 p2 i2 = removeRangeCom items cs [] i1 p2 i2 := by
+        cases p2 <;> simp [removeRangeAt]
+      rw [this]
+      have := removeRangeCom_spec items cs hb [] i1 p2 i2 hv1 hv2 hle (by intro c1 q1 c2 q2 h; cases h)
+      simpa using this
+  | cons c1 q1 ih =>
+    cases n with
+    | leaf cap is => obtain ⟨m1, hm1, _⟩ := hv1; simp at hm1
+    | inner items cs =>
+      obtain ⟨d', rfl, hall⟩ := hb.inner_depth
+      have hlen := hb.inner_len
+      cases p2 with
+      | nil =>
+        have : removeRangeAt (inner items cs) (c1 :: q1) i1 [] i2 = removeRangeCom items cs (c1 :: q1) i1 [] i2 := by
+          simp [removeRangeAt]
+        rw [this]
+        have := removeRangeCom_spec items cs hb (c1 :: q1) i1 [] i2 hv1 hv2 hle
+          (by intro _ _ c2 q2 _ h; cases h)
+        simpa using this
+      | cons c2 q2 =>
+        by_cases hcc : c1 = c2
+        · subst hcc
+          obtain ⟨m1, hm1, hi1⟩ := hv1
+          obtain ⟨m2, hm2, hi2⟩ := hv2
+          simp only [nodeAt?_inner_cons] at hm1 hm2
+          cases hc : cs[c1]? with
+          | none => simp [hc] at hm1
+          | some ch =>
+            simp only [hc] at hm1 hm2
+            have hcl := lt_of_getElem? hc
+            have hbch := hall ch (List.mem_of_getElem? hc)
+            have hve1 : ValidElem ch q1 i1 := ⟨m1, hm1, hi1⟩
+            have hve2 : ValidElem ch q2 i2 := ⟨m2, hm2, hi2⟩
+            rw [idxOf_inner_cons' hc, idxOf_inner_cons' hc] at hle
+            obtain ⟨a1, a2, ⟨lcap, lits, a3⟩, a4, a5⟩ := ih hbch q2 hve1 hve2 (by omega) (by
+              intro ⟨he, cap, its, hn⟩
+              apply hns
+              exact ⟨by rw [he], cap, its, by rw [nodeAt?_inner_cons' hc]; exact hn⟩)
+            have hu1 := idxOf_lt_size hbch q1 i1 hve1
+            have hu2 := idxOf_lt_size hbch q2 i2 hve2
+            have hfun : removeRangeAt (inner items cs) (c1 :: q1) i1 (c1 :: q2) i2 =
+                (inner items (cs.set c1 (removeRangeAt ch q1 i1 q2 i2).1),
+                 (removeRangeAt ch q1 i1 q2 i2).2.1.map (c1 :: ·), c1 :: (removeRangeAt ch q1 i1 q2 i2).2.2) := by
+              simp [removeRangeAt, hc]
+            rw [hfun]
+            simp only
+            have hset : (cs.set c1 (removeRangeAt ch q1 i1 q2 i2).1)[c1]? = some (removeRangeAt ch q1 i1 q2 i2).1 := by
+              simp [hcl]
+            have hpl := preOf_length cs items c1 (by omega) hlen
+            rw [idxOf_inner_cons' hc, idxOf_inner_cons' hc, ← hpl]
+            refine ⟨?_, ?_, ⟨lcap, lits, ?_⟩, ?_, ?_⟩
+            · rw [toList_inner, toList_inner, inter_set cs items c1 ch _ hc hlen, inter_split cs items c1 ch hc hlen, a1,
+                take_middle _ _ _ _ (by simp only [size] at hu1; omega)]
+              have : (preOf cs items c1).length + idxOf ch q2 i2 + 1 = (preOf cs items c1).length + (idxOf ch q2 i2 + 1) := by
+                omega
+              rw [this, drop_middle _ _ _ _ (by simp only [size] at hu2; omega)]
+              simp
+            · exact Bal.inner d' _ _ (by simpa using hlen) (fun y hy => by
+                rcases List.mem_or_eq_of_mem_set hy with h | rfl
+                · exact hall y h
+                · exact a2)
+            · rw [nodeAt?_inner_cons' hset]; exact a3
+            · rw [offsetOf_inner_cons' hset, a4, List.take_set_of_le (Nat.le_refl _), hpl]
+            · intro maxCap hcaps
+              cases hcaps with
+              | inner _ _ h1 h2 =>
+                exact Caps.inner _ _ h1 (fun y hy => by
+                  rcases List.mem_or_eq_of_mem_set hy with h | rfl
+                  · exact h2 y h
+                  · exact a5 maxCap (h2 ch (List.mem_of_getElem? hc)))
+        · have : removeRangeAt (inner items cs) (c1 :: q1) i1 (c2 :: q2) i2 =
+              removeRangeCom items cs (c1 :: q1) i1 (c2 :: q2) i2 := by
+            simp [removeRangeAt, hcc]
+          rw [this]
+          have := removeRangeCom_spec items cs hb (c1 :: q1) i1 (c2 :: q2) i2 hv1 hv2 hle
+            (by intro a b c e h1 h2; cases h1; cases h2; exact hcc)
+          simpa using this
+
+/-- `Remove(begin, end)` below a non-null root for `0 < remCount < mCount`: `b` = begin, `e` = prev(end) -/
+theorem removeRange_spec (cfg : Cfg) {d : Nat} {r : Node α} (hb : Bal d r) (b e : Pos)
+    (hvb : ValidElem r b.path b.idx) (hve : ValidElem r e.path e.idx)
+    (hle : idxOf r b.path b.idx ≤ idxOf r e.path e.idx) :
+    toList (removeRange cfg r b e).1 =
+        (toList r).take (idxOf r b.path b.idx) ++ (toList r).drop (idxOf r e.path e.idx + 1) ∧
+    (∃ d', Bal d' (removeRange cfg r b e).1) ∧
+    idxOf (removeRange cfg r b e).1 (removeRange cfg r b e).2.path (removeRange cfg r b e).2.idx = idxOf r b.path b.idx ∧
+    ValidPos (removeRange cfg r b e).1 (removeRange cfg r b e).2 ∧
+    (Caps cfg.maxCap r → Caps cfg.maxCap (removeRange cfg r b e).1) := by
+  -- the general path
+  have hgen : (¬ (b.path = e.path ∧ ∃ cap its, nodeAt? r b.path = some (leaf cap its))) →
+      toList (removeRangeGen cfg r b e).1 =
+          (toList r).take (idxOf r b.path b.idx) ++ (toList r).drop (idxOf r e.path e.idx + 1) ∧
+      (∃ d', Bal d' (removeRangeGen cfg r b e).1) ∧
+      idxOf (removeRangeGen cfg r b e).1 (removeRangeGen cfg r b e).2.path (removeRangeGen cfg r b e).2.idx =
+          idxOf r b.path b.idx ∧
+      ValidPos (removeRangeGen cfg r b e).1 (removeRangeGen cfg r b e).2 ∧
+      (Caps cfg.maxCap r → Caps cfg.maxCap (removeRangeGen cfg r b e).1) := by
+    intro hns
+    obtain ⟨a1, a2, ⟨lcap, lits, a3⟩, a4, a5⟩ := removeRangeAt_spec hb b.path b.idx e.path e.idx hvb hve hle hns
+    unfold removeRangeGen
+    generalize removeRangeAt r b.path b.idx e.path e.idx = R at a1 a2 a3 a4 a5
+    obtain ⟨r1, reb, res⟩ := R
+    simp only at a1 a2 a3 a4 a5 ⊢
+    -- first pass (from rebNode1), if any
+    have hfirst : ∃ d2 cap2 its2, toList (rebalanceFrom cfg r1 reb res).1 = toList r1 ∧
+        Bal d2 (rebalanceFrom cfg r1 reb res).1 ∧
+        nodeAt? (rebalanceFrom cfg r1 reb res).1 (rebalanceFrom cfg r1 reb res).2 = some (leaf cap2 its2) ∧
+        offsetOf (rebalanceFrom cfg r1 reb res).1 (rebalanceFrom cfg r1 reb res).2 = offsetOf r1 res ∧
+        (Caps cfg.maxCap r1 → Caps cfg.maxCap (rebalanceFrom cfg r1 reb res).1) := by
+      cases reb with
+      | none => exact ⟨d, lcap, lits, rfl, a2, a3, rfl, fun h => h⟩
+      | some rp =>
+        obtain ⟨x1, ⟨d2, x2⟩, x3, x4⟩ := rebalance_spec cfg false a2 rp res
+        obtain ⟨cap2, its2, y1, _, y3⟩ := x3 lcap lits a3
+        exact ⟨d2, cap2, its2, x1, x2, y1, y3, x4⟩
+    obtain ⟨d2, cap2, its2, h2, h3, h4, h5, h6⟩ := hfirst
+    generalize rebalanceFrom cfg r1 reb res = F at h2 h3 h4 h5 h6
+    obtain ⟨r2, res2⟩ := F
+    simp only at h2 h3 h4 h5 h6 ⊢
+    obtain ⟨f1, f2, f3, f4, f5⟩ := remove_finish cfg false h3 res2 res2 0 cap2 its2 h4 (Nat.zero_le _)
+    refine ⟨by rw [f1, h2, a1], f2, by rw [f3, h5, a4]; simp, f4, fun hc => f5 (h6 (a5 _ hc))⟩
+  unfold removeRange
+  obtain ⟨mb, hmb, hib⟩ := hvb
+  cases mb with
+  | inner is cs =>
+    simp only [hmb]
+    exact hgen (by intro ⟨_, cap, its, h⟩; rw [hmb] at h; cases h)
+  | leaf cap items =>
+    simp only [hmb]
+    by_cases hpe : b.path = e.path
+    · rw [if_pos hpe]
+      obtain ⟨me, hme, hie⟩ := hve
+      rw [← hpe, hmb] at hme
+      cases hme
+      simp only [Node.count] at hib hie
+      have hbm := (hb.nodeAt hmb).1
+      have hd0 := hbm.leaf_depth
+      rw [← hpe] at hle
+      rw [idxOf_eq_offset r _ b.path b.idx hmb, idxOf_eq_offset r _ b.path e.idx hmb] at hle
+      simp only [idxOf_leaf] at hle
+      obtain ⟨pre, post, e1, e2, e3, e4, e5, e6, e7⟩ := modifyAt_spec hb b.path hmb (cutItems b.idx e.idx)
+        (by rw [hd0]; exact Bal.leaf _ _)
+      simp only [cutItems] at e3 e5 e7
+      obtain ⟨f1, f2, f3, f4, f5⟩ := remove_finish cfg true e4 b.path b.path b.idx cap
+        (items.take b.idx ++ items.drop (e.idx + 1)) e5 (by simp; omega)
+      refine ⟨?_, f2, ?_, f4, ?_⟩
+      · rw [f1, e3, e1, ← hpe, idxOf_eq_offset r _ b.path b.idx hmb, idxOf_eq_offset r _ b.path e.idx hmb, ← e2]
+        simp only [toList_leaf, idxOf_leaf]
+        rw [take_middle _ _ _ _ (by omega)]
+        have : pre.length + e.idx + 1 = pre.length + (e.idx + 1) := by omega
+        rw [this, drop_middle _ _ _ _ (by omega)]
+        simp
+      · rw [f3, e6, idxOf_eq_offset r _ b.path b.idx hmb]; simp
+      · intro hcaps
+        apply f5
+        apply e7 _ hcaps
+        have hcm := capsAt hcaps b.path hmb
+        cases hcm with
+        | leaf _ _ h1 h2 => exact Caps.leaf _ _ (by simp; omega) h2
+    · rw [if_neg hpe]
+      exact hgen (by intro ⟨h, _⟩; exact hpe h)
+
+/-! ### `Remove(begin, end)` and `Remove(key)` on the container -/
+
+theorem tree_removeRange_spec (cfg : Cfg) (t : Tree α) (hw : t.WF cfg) (b e : Pos) (hvb : t.ValidPos b)
+    (hve : t.ValidPos e) (hle : t.idxOf b ≤ t.idxOf e) :
+    (Tree.removeRange cfg t b e (t.idxOf e - t.idxOf b)).1.toList =
+        t.toList.take (t.idxOf b) ++ t.toList.drop (t.idxOf e) ∧
+    (Tree.removeRange cfg t b e (t.idxOf e - t.idxOf b)).1.WF cfg ∧
+    (Tree.removeRange cfg t b e (t.idxOf e - t.idxOf b)).1.idxOf (Tree.removeRange cfg t b e (t.idxOf e - t.idxOf b)).2 =
+        t.idxOf b ∧
+    (Tree.removeRange cfg t b e (t.idxOf e - t.idxOf b)).1.ValidPos (Tree.removeRange cfg t b e (t.idxOf e - t.idxOf b)).2 := by
+  have hble := validPos_idx_le_len cfg t hw b hvb
+  have hele := validPos_idx_le_len cfg t hw e hve
+  unfold Tree.removeRange
+  cases hr : t.root with
+  | none =>
+    have hl : t.toList = [] := by simp [Tree.toList, hr]
+    have hb0 : t.idxOf b = 0 := by simp [Tree.idxOf, hr]
+    simp only
+    exact ⟨by rw [hl]; simp, hw, by rw [hb0]; simp [Tree.idxOf, hr], by simp [Tree.ValidPos, hr]⟩
+  | some r =>
+    simp only
+    by_cases h0 : t.idxOf e - t.idxOf b = 0
+    · rw [if_pos h0]
+      have : t.idxOf e = t.idxOf b := by omega
+      exact ⟨by rw [this]; simp, hw, this, hve⟩
+    · rw [if_neg h0]
+      by_cases hall : t.idxOf e - t.idxOf b = t.count
+      · rw [if_pos hall]
+        have hc := hw.count
+        have hb0 : t.idxOf b = 0 := by omega
+        have he0 : t.idxOf e = t.toList.length := by omega
+        refine ⟨by rw [hb0, he0]; simp [Tree.toList], Tree.wf_empty cfg, by rw [hb0]; simp [Tree.idxOf],
+          by simp [Tree.ValidPos]⟩
+      · rw [if_neg hall]
+        obtain ⟨d, hb⟩ := hw.bal r hr
+        obtain ⟨p1, p2⟩ := tree_prev_spec cfg t hw e hve (by omega)
+        have hvbe := validElem_of_idx_lt cfg t hw b hvb (by omega)
+        unfold Tree.ValidElem at p2 hvbe
+        unfold Tree.idxOf at p1 hle hble hele h0 hall ⊢
+        unfold Tree.prev at p1 p2 ⊢
+        unfold Tree.toList at hble hele ⊢
+        simp only [hr] at p1 p2 hvbe hle hble hele h0 hall ⊢
+        obtain ⟨a1, a2, a3, a4, a5⟩ := removeRange_spec cfg hb b (Node.prev r e) hvbe p2 (by omega)
+        have hidx : idxOf r (Node.prev r e).path (Node.prev r e).idx + 1 = idxOf r e.path e.idx := p1
+        refine ⟨by rw [a1, hidx], ⟨?_, ?_, ?_⟩, a3, a4⟩
+        · simp only [Tree.toList, a1, hidx, List.length_append, List.length_take, List.length_drop]
+          have hc := hw.count
+          simp only [Tree.toList, hr] at hc
+          omega
+        · intro r' h; cases h; exact a2
+        · intro r' h; cases h; exact a5 (hw.caps r hr)
+
+theorem filter_eq_take_drop (p : α → Bool) (l : List α) (a b : Nat) (hab : a ≤ b) (hb : b ≤ l.length)
+    (h1 : ∀ j y, j < a → l[j]? = some y → p y = true)
+    (h2 : ∀ j y, a ≤ j → j < b → l[j]? = some y → p y = false)
+    (h3 : ∀ j y, b ≤ j → l[j]? = some y → p y = true) : l.filter p = l.take a ++ l.drop b := by
+  induction l generalizing a b with
+  | nil => simp
+  | cons x xs ih =>
+    cases b with
+    | zero =>
+      have : a = 0 := by omega
+      subst this
+      simp only [List.take_zero, List.drop_zero, List.nil_append]
+      apply List.filter_eq_self.mpr
+      intro y hy
+      obtain ⟨j, hj⟩ := List.getElem?_of_mem hy
+      exact h3 j y (Nat.zero_le _) hj
+    | succ b' =>
+      cases a with
+      | zero =>
+        have hx := h2 0 x (Nat.le_refl _) (by omega) (by simp)
+        simp only [List.filter_cons, hx, Bool.false_eq_true, if_false, List.take_zero, List.nil_append,
+          List.drop_succ_cons]
+        have := ih 0 b' (Nat.zero_le _) (by simpa using hb) (fun j y hj _ => by omega)
+          (fun j y hj1 hj2 hy => h2 (j+1) y (by omega) (by omega) (by simpa using hy))
+          (fun j y hj hy => h3 (j+1) y (by omega) (by simpa using hy))
+        simpa using this
+      | succ a' =>
+        have hx := h1 0 x (by omega) (by simp)
+        simp only [List.filter_cons, hx, if_true, List.take_succ_cons, List.drop_succ_cons, List.cons_append]
+        congr 1
+        exact ih a' b' (by omega) (by simpa using hb)
+          (fun j y hj hy => h1 (j+1) y (by omega) (by simpa using hy))
+          (fun j y hj1 hj2 hy => h2 (j+1) y (by omega) (by omega) (by simpa using hy))
+          (fun j y hj hy => h3 (j+1) y (by omega) (by simpa using hy))
+
+section removeKey
+variable (lt : α → α → Bool)
+
+/-- on a sorted sequence the elements equivalent to `k` are exactly those between the bounds -/
+theorem filter_not_equiv (ho : Order lt) (l : List α) (k : α) (hs : l.Pairwise (fun a b => lt b a = false)) :
+    l.filter (fun y => !equiv lt y k) = l.take (lowerIdx lt l k) ++ l.drop (upperIdx lt l k) := by
+  obtain ⟨l1, l2, l3⟩ := lowerIdx_facts lt ho l k hs
+  obtain ⟨u1, u2, u3⟩ := upperIdx_facts lt ho l k hs
+  apply filter_eq_take_drop _ l _ _ (lowerIdx_le_upperIdx lt ho l k hs) u1
+  · intro j y hj hy
+    simp [equiv, l2 j y hj hy]
+  · intro j y hj1 hj2 hy
+    simp [equiv, l3 j y hj1 hy, u2 j y hj2 hy]
+  · intro j y hj hy
+    simp [equiv, u3 j y hj hy]
+
+/-- the loop `while (!pvIsGreater(iter2, key)) { ++iter2; ++remCount; }` ends at the upper bound -/
+theorem run_spec_upper (ho : Order lt) (cfg : Cfg) (t : Tree α) (hw : t.WF cfg)
+    (hs : t.toList.Pairwise (fun a b => lt b a = false)) (k : α) (fuel : Nat) (pos : Pos) (hv : t.ValidPos pos)
+    (hj : t.idxOf pos ≤ upperIdx lt t.toList k) (hf : upperIdx lt t.toList k ≤ t.idxOf pos + fuel) :
+    t.idxOf (Tree.posAfterRun lt t k fuel pos) = upperIdx lt t.toList k ∧
+    t.ValidPos (Tree.posAfterRun lt t k fuel pos) ∧
+    Tree.runLen lt t k fuel pos = upperIdx lt t.toList k - t.idxOf pos := by
+  obtain ⟨u1, u2, u3⟩ := upperIdx_facts lt ho t.toList k hs
+  induction fuel generalizing pos with
+  | zero => simp only [Tree.posAfterRun, Tree.runLen]; exact ⟨by omega, hv, by omega⟩
+  | succ f ih =>
+    have hg := isGreater_spec lt t cfg hw pos hv k
+    simp only [Tree.posAfterRun, Tree.runLen]
+    by_cases hlt : t.idxOf pos < upperIdx lt t.toList k
+    · obtain ⟨y, hy⟩ := getElem?_of_lt (l := t.toList) (i := t.idxOf pos) (by omega)
+      have := u2 _ y hlt hy
+      rw [hy] at hg
+      simp only [hg, this, Bool.false_eq_true, if_false]
+      have hve := validElem_of_idx_lt cfg t hw pos hv (by omega)
+      obtain ⟨n1, n2⟩ := tree_next_spec cfg t hw pos hve
+      obtain ⟨i1, i2, i3⟩ := ih (t.next pos) n2 (by omega) (by omega)
+      exact ⟨i1, i2, by rw [i3, n1]; omega⟩
+    · have he : t.idxOf pos = upperIdx lt t.toList k := by omega
+      have : Tree.isGreater lt t pos k = true := by
+        rw [hg]
+        cases hy : t.toList[t.idxOf pos]? with
+        | none => rfl
+        | some y => exact u3 _ y (by omega) hy
+      simp only [this, if_true]
+      exact ⟨he, hv, by omega⟩
+
+/-- `Remove(key)`: the elements equivalent to the key go away, their number is returned -/
+theorem tree_removeKey_spec (ho : Order lt) (cfg : Cfg) (t : Tree α) (hw : t.WF cfg)
+    (hs : SortedBy lt cfg.multi t.toList) (k : α) :
+    (Tree.removeKey lt cfg t k).1.toList = t.toList.filter (fun y => !equiv lt y k) ∧
+    (Tree.removeKey lt cfg t k).1.WF cfg ∧
+    (Tree.removeKey lt cfg t k).2 = upperIdx lt t.toList k - lowerIdx lt t.toList k := by
+  have hsw := hs.weak ho
+  obtain ⟨l1, l2⟩ := lowerBound_spec lt ho cfg t hw k hsw
+  obtain ⟨f1, f2, f3⟩ := lowerIdx_facts lt ho t.toList k hsw
+  obtain ⟨u1, u2, u3⟩ := upperIdx_facts lt ho t.toList k hsw
+  have hle := lowerIdx_le_upperIdx lt ho t.toList k hsw
+  have hg := isGreater_spec lt t cfg hw _ l2 k
+  rw [l1] at hg
+  rw [filter_not_equiv lt ho t.toList k hsw]
+  unfold Tree.removeKey
+  by_cases hgr : Tree.isGreater lt t (Tree.lowerBound lt cfg t k) k = true
+  · rw [if_pos hgr]
+    -- nothing is equivalent: the bounds coincide
+    have hub : upperIdx lt t.toList k = lowerIdx lt t.toList k := by
+      apply Nat.le_antisymm _ hle
+      apply Decidable.byContradiction; intro hc
+      obtain ⟨y, hy⟩ := getElem?_of_lt (l := t.toList) (i := lowerIdx lt t.toList k) (by omega)
+      rw [hg, hy] at hgr
+      have := u2 _ y (by omega) hy
+      simp only at hgr
+      rw [this] at hgr; cases hgr
+    exact ⟨by rw [hub]; simp, hw, by rw [hub]; simp⟩
+  · rw [if_neg hgr]
+    have hlt : lowerIdx lt t.toList k < upperIdx lt t.toList k := by
+      apply Decidable.byContradiction; intro hc
+      apply hgr
+      rw [hg]
+      cases hy : t.toList[lowerIdx lt t.toList k]? with
+      | none => rfl
+      | some y => exact u3 _ y (by omega) hy
+    cases hm : cfg.multi with
+    | false =>
+      simp only [Bool.not_false, if_true]
+      have hkc := tree_keyCount_spec lt ho cfg t hw hs k
+      have hcont : Tree.contains lt cfg t k = true := by
+        unfold Tree.contains
+        cases h : Tree.isGreater lt t (Tree.lowerBound lt cfg t k) k with
+        | false => rfl
+        | true => exact absurd h hgr
+      unfold Tree.keyCount at hkc
+      simp only [hm, Bool.false_eq_true, if_false, hcont, if_true] at hkc
+      have hve := validElem_of_idx_lt cfg t hw _ l2 (by rw [l1]; omega)
+      obtain ⟨r1, r2, _, _⟩ := tree_remove_spec cfg t hw _ hve
+      rw [l1] at r1
+      refine ⟨?_, r2, by omega⟩
+      rw [r1, List.eraseIdx_eq_take_drop_succ]
+      have : upperIdx lt t.toList k = lowerIdx lt t.toList k + 1 := by omega
+      rw [this]
+    | true =>
+      simp only [Bool.not_true, Bool.false_eq_true, if_false]
+      have hve := validElem_of_idx_lt cfg t hw _ l2 (by rw [l1]; omega)
+      obtain ⟨n1, n2⟩ := tree_next_spec cfg t hw _ hve
+      obtain ⟨q1, q2, q3⟩ := run_spec_upper lt ho cfg t hw hsw k t.count _ n2 (by rw [n1, l1]; omega)
+        (by rw [n1, l1, hw.count]; omega)
+      have hrem : Tree.runLen lt t k t.count (t.next (Tree.lowerBound lt cfg t k)) + 1 =
+          t.idxOf (Tree.posAfterRun lt t k t.count (t.next (Tree.lowerBound lt cfg t k))) -
+            t.idxOf (Tree.lowerBound lt cfg t k) := by
+        rw [q3, q1, n1, l1]; omega
+      rw [hrem]
+      obtain ⟨a1, a2, _, _⟩ := tree_removeRange_spec cfg t hw _ _ l2 q2 (by rw [q1, l1]; omega)
+      refine ⟨by rw [a1, q1, l1], a2, by rw [q1, l1]⟩
+
+end removeKey
+
 end Momo.BTree
